@@ -68,7 +68,7 @@ struct Value {
     static std::vector<Value> parse_args(const char* args_string, size_t args_len = 0) {
         if (args_len == 0) args_len = strlen(args_string);
         std::vector<const char*> args;
-        char* args_ptr[args_len];
+        std::vector<char*> args_ptr(args_len + 1); // on the heap: a stack array of the input's length per nesting level overflows the stack
         size_t arg_idx = 0;
         size_t start = 0;
         for (size_t i = 0; i <= args_len; i++) {
